@@ -17,10 +17,15 @@ pub struct Case {
     /// the tape is read by `gen::build_rec` (recursive type shapes) instead of `gen::build_ast`
     #[serde(default)]
     pub rec: bool,
+    /// the tape is read by `gen::build_kw` (no content terminal at all)
+    #[serde(default)]
+    pub kw: bool,
 }
 
 pub fn spec_of(c: &Case) -> crate::spec::GrammarSpec {
-    if c.rec {
+    if c.kw {
+        gen::build_kw(&c.tape)
+    } else if c.rec {
         gen::build_rec(&c.tape)
     } else {
         gen::build_ast(&c.tape)
@@ -36,7 +41,7 @@ pub fn covering_array() -> Vec<BConfig> {
                 for loc_info in [false, true] {
                     for fancy in [false, true] {
                         for custom_lexer in [false, true] {
-                            all.push(BConfig { glr, builder, arrays, loc_info, fancy, custom_lexer });
+                            all.push(BConfig { glr, builder, arrays, loc_info, fancy, custom_lexer, rn_table: false });
                         }
                     }
                 }
@@ -203,7 +208,7 @@ pub fn run(tier: Tier, seed: u64, replay: Option<&Path>) -> RunResult {
                 let tape = gen::g_ast().new_tree(&mut runner).unwrap().current();
                 for k in 0..3 {
                     let cfg = cov[(g * 3 + k + b) % cov.len()];
-                    v.push(Case { tape: tape.clone(), cfg, rec: false });
+                    v.push(Case { tape: tape.clone(), cfg, rec: false, kw: false });
                 }
             }
             // recursive type shapes (vector / optional / sugar edges that point back)
@@ -212,7 +217,17 @@ pub fn run(tier: Tier, seed: u64, replay: Option<&Path>) -> RunResult {
                 for k in 0..2 {
                     let mut cfg = cov[(g * 2 + k + b) % cov.len()];
                     cfg.builder = 0; // the types live in the actions file of the default builder
-                    v.push(Case { tape: tape.clone(), cfg, rec: true });
+                    v.push(Case { tape: tape.clone(), cfg, rec: true, kw: false });
+                }
+            }
+            // grammars without any content terminal (keywords only), default builder
+            for g in 0..per_batch / 4 {
+                let tape = gen::g_rec().new_tree(&mut runner).unwrap().current();
+                for k in 0..2 {
+                    let mut cfg = cov[(g * 2 + k + b + 5) % cov.len()];
+                    cfg.builder = 0;
+                    cfg.loc_info = k == 0;
+                    v.push(Case { tape: tape.clone(), cfg, rec: false, kw: true });
                 }
             }
             cases.push(v);
